@@ -116,7 +116,7 @@ fn run_items_s(case: &PCase, cfg: ECfg, store: &Arc<MemStore>, state: bool) -> R
                         Item::Op(op) => {
                             match tokio::time::timeout(std::time::Duration::from_secs(5), run_op(&engine, &sh, op)).await {
                                 Ok(o) => {
-                                    let d = if state { state_digest_opts(&engine, &case2.program, case2.program.nodes.len() <= 64).await } else { String::new() };
+                                    let d = if state { { let big = case2.program.nodes.len() > 64; state_digest_opts(&engine, &case2.program, !big, if big { 16 } else { 1 }).await } } else { String::new() };
                                     let mut g = p2.lock().unwrap(); g.outs.push(o); g.states.push(d);
                                 }
                                 Err(_) => return Err(format!("hang at op {}", op.render())),
@@ -743,6 +743,9 @@ fn main() {
     // after every op; state_a.txt / state_b.txt are aligned with ops.txt (`-` on lines that are not a session / round)
     let with_state = a.rest.iter().any(|x| x == "--state");
     let state_max: usize = a.rest.iter().position(|x| x == "--state-max").map(|i| a.rest[i + 1].parse().unwrap()).unwrap_or(usize::MAX);
+    // `--state-every K`: of the GENERATED cases only every K-th gets the two digest runs (corpus and wide fan-in cases: all)
+    let state_every: usize = a.rest.iter().position(|x| x == "--state-every").map(|i| a.rest[i + 1].parse().unwrap()).unwrap_or(1).max(1);
+    let mut n_fixed_cases = 0usize;
     let (mut state_a, mut state_b): (Vec<String>, Vec<String>) = (vec![], vec![]);
     if mode == "c07" {
         let n_cases = a.n.unwrap_or(if thorough { 1500 } else { 60 });
@@ -757,6 +760,7 @@ fn main() {
                 for f in fs { let text = std::fs::read_to_string(f).unwrap(); cases.push((PCase::parse(&text), parse_cfg(&text).unwrap_or(ECfg { cap: 1, group: 1, workers: 1 }))); }
             }
             if !a.rest.iter().any(|x| x == "--no-corpus") { let mut r2 = Rng::new(a.seed ^ 0xfa9); cases.extend(fanin_c07_cases(&mut r2, thorough)); }
+            n_fixed_cases = cases.len();
             for i in 0..n_cases {
                 let c = gen_case(&mut rng, i, thorough && i % 3 == 0, true);
                 let pc = insert_restarts(&mut rng, &c);
@@ -805,7 +809,7 @@ fn main() {
             }
             if rb.crash.is_none() { let l = format!("shutdown {}", rb.batches_at_shutdown.get(ri).map(|n| n.to_string()).unwrap_or("?".into())); out.line("shutdown", &l); exp_lines.push(l); }
             if with_state {
-                let digest_this = case_no < state_max;
+                let digest_this = case_no < state_max && (case_no < n_fixed_cases || (case_no - n_fixed_cases) % state_every == 0);
                 let (sa, sb) = if digest_this {
                     (run_items_s(&case.without_restarts(), *cfg, &MemStore::new(cfg.group, false), true), run_items_s(case, *cfg, &MemStore::new(cfg.group, false), true))
                 } else { (RunOut::default(), RunOut::default()) };
